@@ -89,9 +89,25 @@ class Tracer:
                 self.multi_counts.append(self.multi_idx)
                 self.in_multi = False
         self._set(main, "_multi_run_fixes", multi)
+        # since repair 9438482 main.format_code is a wrapper around main._format_code (which holds the stages): the
+        # str subclass that intercepts expandtabs has to be handed to the inner function (text + "\n" is a plain str)
+        if hasattr(main, "_format_code"):
+            real_inner = main._format_code
+
+            @functools.wraps(real_inner)
+            def inner(source, *a, **k):
+                return real_inner(self.traced_str(str(source)), *a, **k)
+            self._set(main, "_format_code", inner)
         for (modkey, attr), val in self.overrides.items():
             self._set(mods[modkey], attr, val)
         return self
+
+    def format_code(self, source: str, **opts):
+        """main.format_code on `source` with expandtabs intercepted (inside a `with` block)"""
+        main = self.mods["main"]
+        if hasattr(main, "_format_code"):
+            return main.format_code(source, **opts)
+        return main.format_code(self.traced_str(source), **opts)
 
     def __exit__(self, *exc):
         for obj, attr, val in reversed(self._saved):
@@ -129,7 +145,7 @@ def trace_format_code(mods, source: str, **opts):
     tr = Tracer(mods, handler)
     with tr:
         try:
-            res = mods["main"].format_code(tr.traced_str(source), **opts)
+            res = tr.format_code(source, **opts)
         except Exception as e:  # noqa
             res = e
     return res, log
